@@ -366,6 +366,9 @@ func (vc *VC) effectsOfFunc(eff *Effects, fn *types.Func, recvT types.Type, info
 	}
 	p := vc.ld.pkgs[fn.Pkg().Path()]
 	if p == nil {
+		if isStdScalarFunc(fn) {
+			return // assumed pure and total (listed per run)
+		}
 		if se, ok := stdEffects(vc, full, info, c, s); ok {
 			for k, v := range se.R {
 				eff.R[k] = v
@@ -624,4 +627,39 @@ func terminalBlocks(body *ast.BlockStmt, info *types.Info) map[*ast.BlockStmt]bo
 		walkStmt(s, true)
 	}
 	return out
+}
+
+
+// isStdScalarFunc: a package-level function of a package that is not loaded
+// from source (standard library) whose parameters and results are all of
+// basic type. It cannot reach the caller's heap; it is modelled as an
+// uninterpreted function of its arguments, i.e. assumed deterministic, free of
+// global effects and total (no panic) - an assumption listed in the evidence.
+func isStdScalarFunc(fn *types.Func) bool {
+	sig, ok := fn.Type().(*types.Signature)
+	if !ok || sig.Recv() != nil || sig.Variadic() || sig.TypeParams() != nil || fn.Pkg() == nil {
+		return false
+	}
+	switch fn.Pkg().Path() {
+	case "os", "time", "math/rand", "runtime", "sync", "sync/atomic", "unsafe", "log", "fmt":
+		return false
+	}
+	if sig.Results().Len() == 0 {
+		return false
+	}
+	basic := func(t types.Type) bool {
+		b, ok := t.Underlying().(*types.Basic)
+		return ok && b.Info()&(types.IsInteger|types.IsBoolean|types.IsString) != 0
+	}
+	for i := 0; i < sig.Params().Len(); i++ {
+		if !basic(sig.Params().At(i).Type()) {
+			return false
+		}
+	}
+	for i := 0; i < sig.Results().Len(); i++ {
+		if !basic(sig.Results().At(i).Type()) {
+			return false
+		}
+	}
+	return true
 }
